@@ -351,6 +351,17 @@ def run(tier, seed):
     par.pmap(work_cert, cert_cases(), stats=st)
     par.pmap(work_multi, multi_cases(), stats=st)
     check_other_kex(st)
+    vcases = []
+    for bits in H.pick(sizes, seed, 10 if tier == 'quick' else 60):
+        vcases.append({'label': 'rsa %d' % bits, 'opts': ['-n', '-j'] if bits % 128 else ['-n', '-v'],
+                       'make': (lambda bits=bits: P.Server(kex=['curve25519-sha256'], key=['ssh-rsa'], host_keys={'ssh-rsa': wire.rsa_blob_tree(bits)}, banner=b'SSH-2.0-OpenSSH_9.6'))})
+    for (cname, hbits), (cak, cab), fmt in H.pick(cert_cases(), seed, 12 if tier == 'quick' else 60):
+        def mk(cname=cname, hbits=hbits, cak=cak, cab=cab):
+            t, _ = _ca_tree(cak, cab)
+            tree = wire.ed25519_cert_tree(t) if 'ed25519' in cname else wire.rsa_cert_tree(hbits, t)
+            return P.Server(kex=['curve25519-sha256'], key=[cname], host_keys={cname: tree}, banner=b'SSH-2.0-OpenSSH_9.6')
+        vcases.append({'label': 'cert %s %s%s' % (cname, cak, cab), 'opts': ['-n'] + (['-j'] if fmt == 'json' else []), 'make': mk})
+    validated = H.validate_traces(vcases, st)
     # monotonicity of the rating in the key size (from this run's observations is implied by the threshold oracle)
     return evidence.finish(
         PID, tier, seed, st, t0,
@@ -362,7 +373,7 @@ def run(tier, seed):
                                                                          fmts, len(cert_cases()) // 2, [b for k, b in CA_KINDS if k == 'rsa']),
         assumptions=['ground truth = the key the scripted server generated (bit length of the modulus, hashlib fingerprints of the blob sent)',
                      'size of a key = bit length of its modulus / curve'],
-        exhaustive=True)
+        exhaustive=True, traces_validated=validated)
 
 
 def replay(path):
